@@ -26,7 +26,53 @@ def digits_of_word(v, b):
     return [int_to_dig((v >> (k * b)) & ((1 << b) - 1), b) for k in range(64 // b)]
 
 
+_LONG = {}
+
+
+def long_array(seed, n, b):
+    """a long pseudo-random digit array, the same in the driver and in every executor process"""
+    key = (seed, n, b)
+    if key not in _LONG:
+        if len(_LONG) > 8:
+            _LONG.clear()
+        rng = np.random.RandomState(seed % (2 ** 31))
+        _LONG[key] = {"a": rng.randint(0, 2 ** min(b, 31), size=n, dtype=np.int64).astype(np.uint64) * (2 if b == 32 else 1) % (1 << b)}
+    return _LONG[key]
+
+
+def op_bit_embedded(c, o):
+    """The case is a LOCAL view (a few digits) of an operation on a long array: window `pos` of the long array's sliding windows
+    is, by the specification, window 0 of the slice a[pos : pos + w]; element `pos` is element 0 of a[pos : pos + 1].  The long
+    array is packed and queried once per process; TLC judges the local case."""
+    op, b, a = c[0], int(c[1]), c[2]
+    e = o["embed"]
+    L = long_array(int(e["seed"]), int(e["n"]), b)
+    pos = int(e["pos"])
+    arr = L["a"]
+    if [dig_to_int(d) for d in a] != [int(x) for x in arr[pos:pos + len(a)].tolist()]:
+        raise ValueError("embedded slice does not match the long array")
+    if "p" not in L:
+        L["p"] = BitArray.pack(arr.astype(DT2NP[o.get("indt", "u8")] if b < 64 and o.get("indt", "u8") in ("u8", "i8") else np.uint64), b)
+    p = L["p"]
+    if op == "bit_window":
+        w = int(c[3])
+        if ("w", w) not in L:
+            L[("w", w)] = np.asarray(p.sliding_window(w))
+        return ["windows", [digits_of_word(L[("w", w)][pos], b)]]
+    if op == "bit_get":
+        return ["digit", int_to_dig(p[pos + int(c[3])], b)]
+    if op == "bit_roundtrip":
+        if "u" not in L:
+            L["u"] = np.asarray(p.unpack())
+        if len(L["u"]) != len(arr):
+            return ["digits", []]
+        return ["digits", [int_to_dig(x, b) for x in L["u"][pos:pos + len(a)].tolist()]]
+    raise ValueError(op)
+
+
 def op_bit(c, o):
+    if o.get("embed"):
+        return op_bit_embedded(c, o)
     op, b, a = c[0], int(c[1]), c[2]
     indt = o.get("indt", "u8")
     if b == 32 and indt in ("u1", "u2", "i1", "i2", "i4"):
